@@ -108,25 +108,30 @@ def resolve(f, table=None):
             _memo[key] = table["anchors"]
             return table["anchors"]
     role = {}
+    role_callee = {}
+    comp_short = {c.split("::")[-1] for c in evalsum.context_components(f)}
+    by_short = {}
+    for d, b in f.bodies.items():
+        if not b.get("parent"):
+            by_short.setdefault(short_callee(d), []).append(d)
     for kind, r in (("Reference", "reference"), ("Symbol", "symbol"), ("Function", "call_function")):
         names = set()
         results = set()
         for p in table["rows"].get(kind, []):
             for e in p["events"]:
-                if e[0] == "call" and e[1].split("::")[0] == ctx_base.split("::")[-1]:
-                    m_ = e[1].split("::", 1)[1]
-                    names.add(m_)
+                if e[0] == "call" and e[1].split("::")[0] in comp_short:
+                    names.add(e[1])
                     # the lookup proper is the call whose outcome is the node's result
-                    if "%s::%s(" % (ctx_base.split("::")[-1], m_) in str(p["ret"]):
-                        results.add(m_)
+                    if e[1] + "(" in str(p["ret"]):
+                        results.add(e[1])
         if len(names) > 1 and len(results) == 1:
             names = results
         nm = one(names, "context method for %s nodes" % kind)
-        role[r] = one([d for d, b in f.bodies.items() if b["name"] == nm and self_of(f, d).split("<")[0] == ctx_base and b["kind"] == "AssocFn"],
-                      "context method %s" % nm)
+        role[r] = one(by_short.get(nm, []), "context method %s" % nm)
+        role_callee[nm] = r
     a = Anchors({"evaluator": ev, "ctx_type": ctx_ty, "ctx_short": ctx_base.split("::")[-1],
                  "ctx_reference": role["reference"], "ctx_symbol": role["symbol"], "ctx_call": role["call_function"],
-                 "role_names": {f.bodies[v]["name"]: k for k, v in role.items()}})
+                 "role_names": {f.bodies[v]["name"]: k for k, v in role.items()}, "role_callee": role_callee})
 
     def takes_cache(q):
         b_ = f.bodies[q]
@@ -159,6 +164,20 @@ def resolve(f, table=None):
                                     "RuleSet method called by the context's symbol lookup"))
     a.lazy("symbols_get", lambda: one([q for q in tree_callees(f, a["rs_symbol"]) if self_of(f, q) == "symbol::Symbols"],
                                       "Symbols method called by RuleSet's symbol lookup"))
+    def symbol_chain():
+        # the crate-local lookups behind the context's symbol method, outermost first (RuleSet::get_symbol and
+        # Symbols::get today; a context holding the symbol table directly has only the latter)
+        chain, work = [], [a["ctx_symbol"]]
+        while work:
+            for q in tree_callees(f, work.pop()):
+                if self_of(f, q) in ("ruleset::RuleSet", "symbol::Symbols") and q not in chain:
+                    chain.append(q)
+                    work.append(q)
+        if not any(self_of(f, q) == "symbol::Symbols" for q in chain):
+            raise Inconclusive("the context's symbol lookup does not reach a method of Symbols")
+        return chain
+
+    a.lazy("symbol_chain", symbol_chain)
     a.lazy("ctx_constructors", ctx_constructors)
     a.lazy("ctx_new", lambda: one(a["ctx_constructors"], "context constructor"))
     a.lazy("expr_eval", lambda: one(evalsum.find_by_name(f, "evaluate", evalsum.EXPR), "Expr::evaluate"))
